@@ -142,27 +142,69 @@ def placements():
 class Case:
     """a model expression that can be rebuilt with Parameters or with Constants holding given values"""
 
-    def __init__(self, tag, kind, seed=None, mk=None, depth=3, vector_nodes=False, init=(1.5, -0.5), pattern="random"):
+    def __init__(self, tag, kind, seed=None, mk=None, depth=3, vector_nodes=False, init=(1.5, -0.5), pattern="random",
+                 vparam=False):
+        self.vparam = vparam                        # the two parameters are the elements of one VectorParameter
         self.tag, self.kind, self.seed, self.mk, self.depth, self.vector_nodes = tag, kind, seed, mk, depth, vector_nodes
         self.init = tuple(float(v) for v in init)   # parameter values when the model is built (0.0 is Parameter's default)
         self.pattern = pattern                      # shape of the history: see rand_history
+
+    def apply_set(self, params, i, v, k):
+        """`p.set(v)`; when the parameters are the elements of a VectorParameter, through `vp.set(array)` with the array
+        given as list / float64 / float32 / int array in turn"""
+        vp = getattr(self, "_vp", None)
+        if vp is None:
+            params[i].set(v)
+            return
+        vals = [fval(p.value) for p in params]
+        vals[i] = fval(v)
+        forms = [lambda a: list(a), lambda a: np.array(a, dtype=np.float64), lambda a: tuple(a),
+                 lambda a: np.array(a, dtype=np.float32) if all(float(np.float32(t)) == t for t in a) else list(a),
+                 lambda a: np.array(a, dtype=np.int64) if all(float(int(t)) == t for t in a) else np.array(a)]
+        vp.set(forms[k % len(forms)](vals))
 
     def build(self, values=None):
         """-> (expr, params[list of Parameter] or None)"""
         from optyx import Variable, Parameter
         from optyx.core.expressions import Constant
 
+        self._vp = None
+
+        def leaves():
+            if getattr(self, "vparam", False):
+                from optyx import VectorParameter
+                self._vp = VectorParameter("p", 2, values=list(self.init))
+                return self._vp[0], self._vp[1]
+            return Parameter("p", self.init[0]), Parameter("q", self.init[1])
+
+        if self.kind == "deep":
+            from optyx.core.functions import sin
+            from optyx import VectorVariable
+            x, y = Variable("a"), Variable("b")
+            if values is None:
+                P, Q = leaves()
+                ps = [P, Q]
+            else:
+                P, Q, ps = Constant(values[0]), Constant(values[1]), None
+            depth, far_end = self.mk
+            u = VectorVariable("u", 2)
+            obj = {"param": lambda: P * x, "vector": lambda: P * u.sum() + x, "plain": lambda: x * y}[far_end]()
+            for i in range(depth):
+                k = i % 4
+                term = (P * x) if k == 0 else ((y - Q) ** 2 if k == 1 else (sin(x * P) * 0.125 if k == 2 else Q * y * x))
+                obj = obj + term
+            return obj, ps
         if self.kind == "vec":
             E = VecEnv()
             shape, place = self.mk
             if values is None:
-                P, Q = Parameter("p", self.init[0]), Parameter("q", self.init[1])
+                P, Q = leaves()
                 return place(P, Q, shape(E), E), [P, Q]
             return place(Constant(values[0]), Constant(values[1]), shape(E), E), None
         if self.kind == "cell":
             x, y = Variable("a"), Variable("b")
             if values is None:
-                P, Q = Parameter("p", self.init[0]), Parameter("q", self.init[1])
+                P, Q = leaves()
                 return self.mk(P, Q, x, y), [P, Q]
             return self.mk(Constant(values[0]), Constant(values[1]), x, y), None
         r = core.Rng(self.seed)
@@ -191,13 +233,15 @@ class Artefacts:
 
     def __init__(self, e, vs):
         self.e, self.vs = e, vs
-        self.fn = self.jac = self.hess = self.grad = None
+        self.fn = self.jac = self.hess = self.grad = self.dict_fn = self.sym = None
+        self.xbuf = np.zeros(len(vs))     # one input array object, overwritten in place before every call
 
     def observe(self, kind, env):
         from optyx.core.compiler import compile_expression, compile_gradient
         from optyx.core.autodiff import compile_jacobian, compile_hessian
 
-        x = np.array([env[v.name] for v in self.vs], dtype=float)
+        self.xbuf[:] = [env[v.name] for v in self.vs]
+        x = self.xbuf
         with warnings.catch_warnings(), np.errstate(all="ignore"):
             warnings.simplefilter("ignore")
             if kind == "eval":
@@ -210,6 +254,16 @@ class Artefacts:
                 if self.jac is None:
                     self.jac = compile_jacobian([self.e], self.vs)
                 return self.jac.__name__, [float(t) for t in np.asarray(self.jac(x), dtype=float).ravel()]
+            if kind == "dict":
+                from optyx.core.compiler import compile_to_dict_function
+                if self.dict_fn is None:
+                    self.dict_fn = compile_to_dict_function(self.e, self.vs)
+                return None, [float(np.asarray(self.dict_fn(env)))]
+            if kind == "symgrad":
+                from optyx.core.autodiff import gradient
+                if self.sym is None:
+                    self.sym = [gradient(self.e, v) for v in self.vs]
+                return None, [float(np.asarray(g.evaluate(env))) for g in self.sym]
             if kind == "grad":
                 if self.grad is None:
                     self.grad = compile_gradient(self.e, self.vs)
@@ -273,6 +327,13 @@ def exponent_base_zero(e, env):
 
 
 NOT01 = [v for v in PV if v not in (0.0, 1.0)]
+# magnitudes and numeric types a user may pass to Parameter.set / VectorParameter.set
+PV_EXTREME = [1e-12, -1e-9, 1e8, -1e8, 2, -3, np.float32(0.5), np.int64(-1), np.array(1.5), np.float64(-0.0), True,
+              np.uint8(3), np.float16(0.25)]
+
+
+def fval(v):
+    return float(np.asarray(v))
 
 
 def rand_history(rng, vs, n, pattern="random", with_grad=False):
@@ -288,13 +349,20 @@ def rand_history(rng, vs, n, pattern="random", with_grad=False):
     elif pattern == "to01-then-derive":
         ops += [("set", 0, rng.choice([0.0, 1.0])), ("set", 1, rng.choice([0.0, 1.0])), ("jac", pt()), ("hess", pt())]
         ops += [("set", 0, rng.choice(NOT01)), ("set", 1, rng.choice(NOT01)), ("jac", pt()), ("hess", pt()), ("fn", pt())]
+    elif pattern == "extreme":
+        ops += [("jac", pt()), ("set", 0, rng.choice(PV_EXTREME)), ("set", 1, rng.choice(PV_EXTREME)), ("jac", pt()), ("fn", pt()),
+                ("hess", pt())]
+    last_pt = None
     for _ in range(n):
         r = rng.random()
         if r < 0.35:
-            ops.append(("set", rng.randint(0, 1), rng.choice(PV)))
+            ops.append(("set", rng.randint(0, 1), rng.choice(PV_EXTREME if pattern == "extreme" and r < 0.2 else PV)))
         else:
             kind = rng.choice(["eval", "fn", "jac", "jac", "hess", "fn"])
-            ops.append((kind, pt()))
+            # half of the time at the very same point as the previous observation (a set may lie in between)
+            q = last_pt if last_pt is not None and rng.random() < 0.5 else pt()
+            last_pt = q
+            ops.append((kind, q))
     # make sure something is observed after the last set
     ops.append((rng.choice(["jac", "fn", "hess"]), pt()))
     if with_grad:
@@ -304,6 +372,9 @@ def rand_history(rng, vs, n, pattern="random", with_grad=False):
             out.append(o)
             if o[0] == "jac":
                 out.append(("grad", o[1]))
+                out.append(("symgrad", o[1]))
+            if o[0] == "fn":
+                out.append(("dict", o[1]))
         ops = out
     return ops
 
@@ -328,9 +399,9 @@ def run_expression_case(case, rng, rep, lean_ok, n_ops):
     sets_seen = 0
     for op in ops:
         if op[0] == "set":
-            params[op[1]].set(op[2])
+            case.apply_set(params, op[1], op[2], sets_seen)
             sets_seen += 1
-            optxt.append(f"(set {ids.of(params[op[1]])} {rat(op[2])})" if lean_ok else "")
+            optxt.append(f"(set {ids.of(params[op[1]])} {rat(fval(params[op[1]].value))})" if lean_ok else "")
             expected.append(None)
             continue
         kind, env = op
@@ -349,8 +420,9 @@ def run_expression_case(case, rng, rep, lean_ok, n_ops):
         except Exception as ex:  # noqa: BLE001
             rep.oracle_failures.append({"what": f"{kind} raised {type(ex).__name__}: {str(ex)[:120]}", "case": case.tag,
                                         "kind": case.kind, "seed": case.seed, "depth": case.depth,
-                                        "vector_nodes": case.vector_nodes, "init": list(case.init),
-                                        "history": [list(o[:1]) + ([o[1], o[2]] if o[0] == "set" else [o[1]])
+                                        "vector_nodes": case.vector_nodes, "init": list(case.init), "vparam": case.vparam,
+                                        "deep": list(case.mk) if case.kind == "deep" else None,
+                                        "history": [list(o[:1]) + ([o[1], fval(o[2])] if o[0] == "set" else [o[1]])
                                                     for o in ops[: len(expected) + 1]]})
             return None
         optxt.append(f"({kind} {env_text(env)})" if lean_ok else "")
@@ -376,7 +448,7 @@ def run_expression_case(case, rng, rep, lean_ok, n_ops):
         if sets_seen:
             rep.nontrivial.add((case.tag, case.seed, len(expected)))
         if len(vals) != len(cvals) or not all(close(a, b, 1e-7, 1e-9) for a, b in zip(vals, cvals)):
-            if kind in ("jac", "hess", "grad") and exponent_base_zero(e, env):
+            if kind in ("jac", "hess", "grad", "symgrad") and exponent_base_zero(e, env):
                 rep.skipped["parameter-exponent-at-base-0"] = rep.skipped.get("parameter-exponent-at-base-0", 0) + 1
                 continue
             if not well_conditioned(lambda pe: Artefacts(ce, cvs).observe(kind, pe)[1], env, cvals):
@@ -385,8 +457,8 @@ def run_expression_case(case, rng, rep, lean_ok, n_ops):
             rep.oracle_failures.append({
                 "what": f"{kind} after Parameter.set differs from a fresh model built with Constant(current value)",
                 "case": case.tag, "kind": case.kind, "seed": case.seed, "depth": case.depth, "vector_nodes": case.vector_nodes,
-                "init": list(case.init),
-                "history": [list(o[:1]) + ([o[1], o[2]] if o[0] == "set" else [o[1]]) for o in ops[: len(expected)]],
+                "init": list(case.init), "vparam": case.vparam, "deep": list(case.mk) if case.kind == "deep" else None,
+                "history": [list(o[:1]) + ([o[1], fval(o[2])] if o[0] == "set" else [o[1]]) for o in ops[: len(expected)]],
                 "params_now": cur, "got": vals[:9], "fresh_constant_model": cvals[:9]})
     if lean_ok:
         line = f"pobs {s} {vtxt} {store} (" + " ".join(optxt) + ")"
@@ -636,6 +708,18 @@ def run(ctx) -> core.Report:
             cases.append(Case(tag, "cell", mk=mk, pattern="to01-then-derive"))
             cases.append(Case(tag, "cell", mk=mk, init=rng.choice(inits), pattern="random"))
 
+    # parameters that are elements of a VectorParameter (set through vp.set(list / float64 / float32 / int array)),
+    # extreme magnitudes and numeric types of the values, chains deeper than the recursion threshold
+    import optyx.core.compiler as _C
+    thr = _C._RECURSION_THRESHOLD
+    for j, (tag, mk) in enumerate(cell_recipes()):
+        cases.append(Case(tag, "cell", mk=mk, init=inits[j % len(inits)], pattern="derive-first", vparam=True))
+        cases.append(Case(tag, "cell", mk=mk, pattern="extreme", vparam=(j % 2 == 0)))
+    for depth in ([thr + 5] if not thorough else [thr - 1, thr, thr + 1, thr + 5, 2 * thr + 100]):
+        for far_end in ("param", "vector", "plain"):
+            cases.append(Case(f"deep:{depth}:{far_end}", "deep", mk=(depth, far_end), init=inits[len(cases) % len(inits)],
+                              pattern="derive-first", vparam=(far_end == "vector")))
+
     # Parameter × vector-node shapes at / near the root (the `jacobian_row` shortcuts of the vector classes and of BinaryOp)
     k = 0
     for stag, shape in vector_shapes():
@@ -645,7 +729,7 @@ def run(ctx) -> core.Report:
             if thorough:
                 reps += [("to01-then-derive", (1.5, -0.5)), ("random", inits[(k + 2) % len(inits)])]
             for pat, init in reps:
-                cases.append(Case(f"vec:{stag}:{ptag}", "vec", mk=(shape, place), init=init, pattern=pat))
+                cases.append(Case(f"vec:{stag}:{ptag}", "vec", mk=(shape, place), init=init, pattern=pat, vparam=(k % 4 == 0)))
 
     def rinit():
         return (rng.choice(PV), rng.choice(PV)) if rng.random() < 0.5 else rng.choice(inits)
@@ -663,8 +747,8 @@ def run(ctx) -> core.Report:
     metas = []
     try:
         for c in cases:
-            r = run_expression_case(c, rng, rep, lean_ok=(c.tag != "rand-vector" and c.kind != "vec"),
-                                    n_ops=rng.randint(4, n_ops) if c.kind != "vec" else 2)
+            r = run_expression_case(c, rng, rep, lean_ok=(c.tag != "rand-vector" and c.kind not in ("vec", "deep")),
+                                    n_ops=rng.randint(4, n_ops) if c.kind not in ("vec", "deep") else 2)
             if r is not None and r[0] is not None:
                 metas.append(r)
         degree_facts(rng, rep, 400 if thorough else 120)
@@ -717,11 +801,14 @@ def replay(payload) -> bool:
                     ok = False
         return ok
     init = tuple(f.get("init", (1.5, -0.5)))
-    if f.get("kind") == "vec":
+    if f.get("kind") == "deep":
+        case = Case(f["case"], "deep", mk=tuple(f["deep"]), init=init, vparam=bool(f.get("vparam")))
+    elif f.get("kind") == "vec":
         _, stag, ptag = f["case"].split(":", 2)
-        case = Case(f["case"], "vec", mk=(dict(vector_shapes())[stag], dict(placements())[ptag]), init=init)
+        case = Case(f["case"], "vec", mk=(dict(vector_shapes())[stag], dict(placements())[ptag]), init=init,
+                    vparam=bool(f.get("vparam")))
     elif f.get("kind") == "cell":
-        case = Case(f["case"], "cell", mk=dict(cell_recipes())[f["case"]], init=init)
+        case = Case(f["case"], "cell", mk=dict(cell_recipes())[f["case"]], init=init, vparam=bool(f.get("vparam")))
     else:
         case = Case(f["case"], "rand", seed=f["seed"], depth=f.get("depth", 3), vector_nodes=f.get("vector_nodes", False),
                     init=init)
@@ -731,7 +818,7 @@ def replay(payload) -> bool:
     ok = True
     for op in f.get("history", []):
         if op[0] == "set":
-            params[op[1]].set(op[2])
+            case.apply_set(params, op[1], op[2], 0)
             continue
         kind, env = op[0], op[1]
         try:
